@@ -240,3 +240,41 @@ func VerifC12ReRegister() {
 	vCoverIf(!registered && underEnclosing, "re-registration-refused-for-a-conflicting-record")
 	vCoverIf(registered && withSub, "record-added-in-the-last-millisecond-of-the-name-does-not-conflict")
 }
+
+// C12 conflicting records: a.com is registered, ONE record is added for a name that is not registered (it is
+// stored under a.com), then w.a.com is looked up with isAvailable and registered. A record conflicts with the
+// registration of w.a.com exactly if it belongs to a SUB-NAME of w.a.com (its name ends with ".w.a.com").
+// param 0 chooses the record's name:
+//	0 w.a.com itself (an alias record for the very name: no conflict)
+//	1 x.w.a.com (a sub-name: conflict)
+//	2 x.w.a.com.y.w.a.com (a sub-name in which ".w.a.com" occurs twice: conflict)
+//	3 xw.a.com (a SIBLING whose first label merely ends with "w": no conflict)
+//	4 x.b.a.com (a sub-name of another name: no conflict)
+func VerifC12Conflict() {
+	vDeploy("nns", []any{[]any{"com", "ops@nspcc.io"}})
+	o1 := vAcct("o1")
+	vSign(o1, true)
+	ok, r := vInvoke("nns", "register", "a.com", o1, "e@nspcc.io", 1, 2, 100000, 3)
+	vAssume(ok && r.(bool))
+	names := []string{"w.a.com", "x.w.a.com", "x.w.a.com.y.w.a.com", "xw.a.com", "x.b.a.com"}
+	conflicts := []bool{false, true, true, false, false}
+	rec, conflict := names[0], conflicts[0]
+	for i := 1; i < 5; i++ {
+		if vParam(0) == i {
+			rec, conflict = names[i], conflicts[i]
+		}
+	}
+	vAssume(asOwner(o1, "addRecord", rec, typeTXT, string(vBytes("data", 2))))
+	okAv, av := vRead("nns", "isAvailable", "w.a.com")
+	vSign(o1, true)
+	okReg, rr := vInvoke("nns", "register", "w.a.com", o1, "e@nspcc.io", 1, 2, 1000, 3)
+	registered := okReg && rr.(bool)
+	vAssert(okAv && av.(bool) == !conflict, "C12/isAvailable-is-false-exactly-for-names-whose-sub-names-have-records")
+	vAssert(registered == !conflict, "C12/registration-refused-exactly-while-the-enclosing-name-holds-records-of-sub-names")
+	if !conflict {
+		vRequire(registered, "name-registered-beside-unrelated-records")
+	}
+	if conflict {
+		vCoverIf(!registered, "registration-refused-for-a-conflicting-record")
+	}
+}
